@@ -104,23 +104,4 @@ theorem vcfRow_is_source (cfg : Cfg) (first : String) (r : Seg) (fmt : Rat → S
     congr 2
     simp only [vcfCols, ncopiesOf, expectVcf, h, if_true]
 
-/-! ### the command-line glue -/
-
-theorem verifySampleSex_is_source (g : Bool) (s : Option String) :
-    verifySampleSex g s = src_verify_sample_sex g (s.getD "") := by
-  unfold src_verify_sample_sex verifySampleSex maleSpellings
-  cases s with
-  | none => simp
-  | some s =>
-    by_cases hs : s = ""
-    · subst hs; simp
-    · cases g <;> simp [hs, String.isEmpty_iff] <;> grind
-
-theorem cmdBedLabel_is_source (sid : Option String) (lg : Bool) (segId : String) :
-    (cmdBedLabel sid lg segId).getD "" = src_cmd_export_bed_label (sid.getD "") lg segId := by
-  unfold src_cmd_export_bed_label cmdBedLabel
-  cases sid with
-  | none => cases lg <;> simp
-  | some s => by_cases hs : s = "" <;> cases lg <;> simp [hs, String.isEmpty_iff]
-
 end CnvVerif.Src
